@@ -141,6 +141,10 @@ int main(void)
 int main(void)
 {
     setup();
+#ifdef MSG_CONN_ONLY
+    /* xcm.max_msg_size and the *_msgs counters exist on messaging connection sockets only (populate_msg_conn) */
+    g_bytestream = false; sock.proto = &msg_proto;
+#endif
 #if GSIZE > 0
     size_t cap = (size_t)nd_range(GSIZE, BUFMAX);
 #else
